@@ -117,7 +117,8 @@ func (pl *procLayer) Handler(ctx context.Context, args []string) error {
 	}
 	info := &ExecInfo{Owner: owner, Block: block, Idx: idx, Args: append([]string(nil), args...), Dir: hc.Dir, Env: map[string]string{}}
 	hc.Env.Each(func(name string, vr expand.Variable) bool {
-		if vr.Kind == expand.String && (pl.envF == nil || pl.envF(name)) {
+		// (what a real child process would get: the exported variables)
+		if vr.Exported && vr.Kind == expand.String && (pl.envF == nil || pl.envF(name)) {
 			info.Env[name] = vr.Str
 		}
 		return true
